@@ -3,11 +3,14 @@
      p x1 .. xd                      one point
      E                               evaluate the query on the points read so far
    Output on E:
-     R nds=<rank_list> fast=<fast_nds model> dc=<rank_list>
+     R nds=<nds_front model (front end)> fast=<fast_nds model> dc=<dc_nds model (divide-and-conquer sort)> spec=<rank_list>
      H spec=<hv_spec> a2=<hv2d model | -> a3=<hv3d model (3-D sweep) | -> wfg=<wfg model | -> (n <= 24)
        lim=<wfg_limit (points 2..n) (point 1), sorted, p1,..,pd/..  | -> (n >= 2, n <= 24)
        disp=<hv_dispatch model of the front end; HOY slot (4 objectives) filled with hv_spec | -> (WFG branch: n <= 24)
-     K k=<k> spec=<contribs_spec by index> c2d=<contrib2d_ref by index | ->
+     K k=<k> spec=<contribs_spec by index> c2d=<contrib2d_ref by index | -> small=.. large=.. (k extremal values of spec)
+       md=<contribs_md_inst by index (model of HypervolumeContributionMD; HOY slot filled with hv_spec)>
+       mds=<smallest_kv k of it, value@index;..> mdl=<largest_kv k of it>
+       c3d=<contribs3d by index (model of HypervolumeContribution3D::allContributions) | -> c3s=<smallest_kv k of it> c3l=<largest_kv k>
      N k=<k> c2d=<contrib2d_noref value@index list | ->       (spec with implied reference: see c13.py)
      S k=<k> best=<best_subset_hv> front=<front_size> sel=<hssp2d model: 0/1 per point | EXC | -> hvsel=<hv_spec of the
        points the model selects | ->            (sel only for n <= 16: libstdc++ insertion sort)  | S SKIP *)
@@ -49,7 +52,8 @@ let () =
         (match !query with
          | "R" ->
            let r = rank_list s and f = fast_nds s in
-           Printf.printf "R nds=%s fast=%s dc=%s\n" (join snat r) (join snat f) (join snat r)
+           let dc = dc_nds s and fe = nds_front s in
+           Printf.printf "R nds=%s fast=%s dc=%s spec=%s\n" (join snat fe) (join snat f) (join snat dc) (join snat r)
          | "H" ->
            let v = hv_spec !refp s in
            let a2 = if !d = 2 then sz (hv2d !refp s) else "-" in
@@ -70,8 +74,18 @@ let () =
                  let arr = Array.make n "?" in
                  List.iter (fun (v, i) -> let i = int_of_nat i in if i < n then arr.(i) <- sz v) l;
                  String.concat "," (Array.to_list arr) end else "-" in
-             Printf.printf "K k=%d spec=%s c2d=%s small=%s large=%s\n" keff (join sz c) c2
+             let kvs l = if l = [] then "none" else String.concat ";" (List.map (fun (v, i) -> sz v ^ "@" ^ snat i) l) in
+             let md = contribs_md_inst hv_spec !refp s in
+             let by_index l = let arr = Array.make n "?" in
+               List.iter (fun (v, i) -> let i = int_of_nat i in if i < n then arr.(i) <- sz v) l;
+               String.concat "," (Array.to_list arr) in
+             let c3, c3s, c3l = if !d = 3 then begin
+                 let l = contribs3d !refp s in
+                 (by_index l, kvs (smallest_kv (nat_of_int keff) l), kvs (largest_kv (nat_of_int keff) l)) end
+               else ("-", "-", "-") in
+             Printf.printf "K k=%d d=%d spec=%s c2d=%s c3d=%s c3s=%s c3l=%s small=%s large=%s md=%s mds=%s mdl=%s\n" keff !d (join sz c) c2 c3 c3s c3l
                (join sz (smallest_k (nat_of_int keff) c)) (join sz (largest_k (nat_of_int keff) c))
+               (join (fun (v, _) -> sz v) md) (kvs (smallest_kv (nat_of_int keff) md)) (kvs (largest_kv (nat_of_int keff) md))
            end
          | "N" ->
            if n = 0 then print_endline "N empty" else begin
